@@ -593,6 +593,40 @@ theorem vm_faulty_vs_abort (G : FUid → Prop) (fuel fuelA : Nat) (heads headsA 
   · rw [f1.hx g h hg, f2.hx g h hg, hhx g h hg]
   · rw [ctx_of_frame f1 g hg, ctx_of_frame f2 g hg, hfx g hg]
 
+/-- **`vm_faulty_flow_fails_alone` — the CoreVM statements put together** for one faulty head `k` whose statement raises inside
+    `slide` (trace hypotheses of `vm_except_branch`), whose instance is a leaf at the raise (`Leafish1`), inside any family `G`
+    closed under child / scope flows (`Closed`; e.g. `G = {k.1}` for a leaf that owns its context):
+    * no Python-level exception leaves `_advance_head_front`;
+    * the `ColangError` event is in the final queue, whatever the outcome;
+    * every instance outside `G` is untouched, whatever the outcome (`FrameOut`), and `G` stays closed;
+    * on normal return nothing is handed back, nothing queued at the raise is lost, and if the instance was listening / STOPPING at
+      the raise it is STOPPED without heads with its `FlowFailed` queued. -/
+theorem vm_faulty_flow_fails_alone (G : FUid → Prop) (fuel : Nat) (k : Key) (s s1 s2 : VM) (i : Inst) (hd hd2 : Head)
+    (cfg : FlowCfg) (c m : String) (starting : Bool) (par : Option FUid) (act : Int)
+    (hG : G k.1) (hc : Closed G s)
+    (hi : findInst s.ixs.ix k.1 = some i) (hl : i.status.listening = true)
+    (hcfg : cfgOfInst k.1 s = .ok cfg s)
+    (hhd : i.findHead k.2 = some hd) (hact : hd.status = .active)
+    (hpre : (do
+        setHeadPos k (hd.pos + 1)
+        if (← getInst k.1).status = FlowStatus.waiting then setFlowStatus k.1 FlowStatus.starting
+        pure (decide ((← getInst k.1).status = FlowStatus.starting))) s = .ok starting s1)
+    (hraise : (do
+        let newHeads ← slide (fuel + 1) k.1 k.2
+        if newHeads.isEmpty then pure [] else advanceHeadFront (fuel + 1) newHeads) s1 = .error (.py c m) s2)
+    (hhd2 : (findInst s2.ixs.ix k.1).bind (·.findHead k.2) = some hd2) (hpos : hd2.pos < cfg.elements.size)
+    (hleaf : Leafish1 k.1 par act s2) :
+    (∀ c' m' s', advanceHeadFront (fuel + 2) [k] s ≠ .error (.py c' m') s') ∧
+    colangErrorEvent c m ∈ (outState (advanceHeadFront (fuel + 2) [k] s)).r.queue ∧
+    (Closed G (outState (advanceHeadFront (fuel + 2) [k] s)) ∧ FrameOut G s (outState (advanceHeadFront (fuel + 2) [k] s))) ∧
+    (∀ r s', advanceHeadFront (fuel + 2) [k] s = .ok r s' →
+      r = [] ∧ Ext s2 s' ∧
+      ∀ i2, findInst s2.ixs.ix k.1 = some i2 → (i2.status.listening = true ∨ i2.status = .stopping) → ∃ sc, Aborted k.1 sc s') := by
+  have h1 := vm_error_contained fuel k s s1 s2 i hd hd2 cfg c m starting hi hl hcfg hhd hact hpre hraise hhd2 hpos
+  refine ⟨vm_leaf_error_never_propagates fuel k s s1 s2 i hd hd2 cfg c m starting par act hi hl hcfg hhd hact hpre hraise hhd2 hpos hleaf,
+    h1.1, ?_, h1.2.1⟩
+  exact vm_advance_frame G (fuel + 2) [k] (by intro k' hk'; simp at hk'; subst hk'; exact hG) s hc
+
 /-! ### step labelling: CoreVM micro-steps are steps of the abstract models (phase 4, goal 3) -/
 
 /-- one non-stopping iteration of CoreVM's `slide` loop moves the head along an EDGE of the sliding graph of the classified
@@ -807,4 +841,13 @@ def startP : Event :=
 theorem start_flow_error_escapes_as_is :
     pyClassOf (handleEventMatching startP [("p", "hp")] paramVM) = some "ColangRuntimeError" := by decide +kernel
 
+
+/-- non-vacuity of `vm_faulty_flow_fails_alone`: besides the trace hypotheses (witnessed above for `demoVM3`) the family `{f}` is closed
+    in `demoVM3` — its parent `m` is outside and only loses `f` from its child list -/
+example : Closed (· = "f") demoVM3 := by
+  intro g x hg hl
+  subst hg
+  have h : OMap.lookup "f" demoVM3.r.fx = some { flowId := "f", loopId := none, hierPos := "0.0", parentUid := some "m" } := rfl
+  rw [h] at hl; cases hl
+  exact ⟨fun c hc => absurd hc (by simp [kids, scopeFlows]), rfl⟩
 end NemoVerif.C10.VM
